@@ -2,7 +2,8 @@
    the scripted-driver and pipeflow correspondences) or decided by computation on Gen/StageWiring.v
    (regenerated from pandapipes/pipeflow.py on every run). *)
 From Coq Require Import String Ascii QArith Qabs Qminmax List Bool ZArith Lia PrimFloat.
-From PP Require Import C05.Model C05.Proofs Gen.StageWiring.
+From PP Require Import C05.Model C05.Proofs C05.Finite Gen.StageWiring.
+From PP Require C06.Model C04.Model.
 Import ListNotations.
 Open Scope nat_scope.
 
@@ -49,6 +50,51 @@ Theorem nan_never_counts : forall new old tol,
 Proof. intros new old tol H. rewrite (nan_change_gives_nan_error _ _ H). reflexivity. Qed.
 Print Assumptions nan_never_counts.
 
+(* 2d. the update lines  pit[:, COL] -= x * alpha : a NaN entry of the solution x of the linear system makes
+   the error of that variable NaN - such an iteration is never the converged one *)
+Theorem nan_in_solution_never_converges : forall alpha old x i o tol,
+  nth_error old i = Some o -> nth_error x i = Some NaN -> fle (err_of (upd alpha old x, old)) tol = false.
+Proof. intros. rewrite (nan_in_solution_gives_nan_error alpha old x i o); auto. Qed.
+Print Assumptions nan_in_solution_never_converges.
+
+(* 2e. finite results.  Any vector-level oracle, finite tolerances for every examined variable: if the loop
+   ends converged then in its last iteration every component of every examined (new, old) pair is a number
+   (no NaN, no inf) ... *)
+Theorem converged_vectors_are_numbers : forall cfg vorc a0,
+  Forall is_num (c_tols cfg) -> c_nvars cfg <= length (c_tols cfg) ->
+  (forall st p, In p (v_pairs (vorc st)) -> length (fst p) = length (snd p)) ->
+  let fin := newton_v cfg vorc false a0 in
+  s_conv fin = true ->
+  exists prev, fin = step cfg (obs_of (c_nvars cfg) (vorc prev)) prev /\
+    fle (v_res (vorc prev)) (c_tol_res cfg) = true /\
+    (c_meth cfg = Automatic -> (s_alpha fin == 1)%Q) /\
+    forall p, In p (firstn (c_nvars cfg) (v_pairs (vorc prev))) -> Forall is_num (fst p) /\ Forall is_num (snd p).
+Proof. exact converged_vectors_lemma. Qed.
+Print Assumptions converged_vectors_are_numbers.
+
+(* ... and (C04 writeback_nan_pattern) extract_results_active_pit then puts a number into every row the
+   connectivity mask marks as supplied and in service, and NaN into every other row *)
+Theorem supplied_rows_get_numbers : forall (mask : list bool) (active : list fl),
+  Forall is_num active -> length active = PP.C06.Model.count_true mask ->
+  length (PP.C04.Model.writeback mask active) = length mask /\
+  forall i, i < length mask ->
+    (PP.C04.Model.nthb mask i = true -> exists q, nth i (PP.C04.Model.writeback mask active) None = Some (Fin q)) /\
+    (PP.C04.Model.nthb mask i = false -> nth i (PP.C04.Model.writeback mask active) None = None).
+Proof. exact writeback_of_numbers. Qed.
+Print Assumptions supplied_rows_get_numbers.
+
+(* 2f. for C08: both damping strategies accept an iteration only through the same tolerance test, the
+   automatic one additionally only undamped - so they have the same accepted states *)
+Theorem damping_same_fixed_points : forall cfgA cfgC o stA stC,
+  c_meth cfgA = Automatic -> c_meth cfgC <> Automatic ->
+  c_tols cfgA = c_tols cfgC -> c_tol_res cfgA = c_tol_res cfgC ->
+  (s_conv (step cfgA o stA) = true ->
+     s_conv (step cfgC o stC) = true /\ (s_alpha (step cfgA o stA) == 1)%Q) /\
+  (s_conv (step cfgC o stC) = true -> (s_alpha (step cfgA o stA) == 1)%Q ->
+     s_conv (step cfgA o stA) = true).
+Proof. exact damping_same_fixed_points_lemma. Qed.
+Print Assumptions damping_same_fixed_points.
+
 (* 3. damping ladder *)
 Theorem alpha_ladder : forall cfg o st,
   on_ladder (s_alpha st) ->
@@ -91,7 +137,8 @@ Print Assumptions rejected_vars_restored.
    marked not converged and every table is all-NaN; any other exception either touched nothing
    (init_options) or left all-NaN tables, and once the set-up phase is through - in particular when it is
    raised while the results are extracted, or escapes from a solve function - the net is marked not
-   converged as well.  For ANY prior net state. *)
+   converged as well, unless it was raised inside a stage after that stage's loop had converged
+   (nopost_env excludes exactly that; 5c shows why).  For ANY prior net state. *)
 Theorem pipeflow_outcome : forall m e n,
   let '(n', o, sts) := pipeflow m e n in
   (o = Returned -> n_conv n' = true /\ n_tables n' = Written /\ sts <> [] /\
@@ -99,7 +146,7 @@ Theorem pipeflow_outcome : forall m e n,
   (o = NotConverged -> n_conv n' = false /\ n_tables n' = AllNaN) /\
   (n_tables n' = Written -> o = Returned \/ (o = OtherException /\ n' = n)) /\
   (o = OtherException -> n' = n \/ n_tables n' = AllNaN) /\
-  (o = OtherException -> pe_options_raise e = false -> pe_setup_raise e = false ->
+  (o = OtherException -> pe_options_raise e = false -> pe_setup_raise e = false -> nopost_env e ->
      n_conv n' = false /\ n_tables n' = AllNaN).
 Proof. exact pipeflow_outcome_lemma. Qed.
 Print Assumptions pipeflow_outcome.
@@ -107,11 +154,11 @@ Print Assumptions pipeflow_outcome.
 (* 5b. the extraction clause on its own: whatever the stages did, an exception raised by a component's
    extract_results leaves converged = False and all-NaN tables *)
 Theorem extraction_failure_leaves_no_results : forall m e n,
-  pe_options_raise e = false -> pe_setup_raise e = false -> pe_extract_raise e = true ->
+  pe_options_raise e = false -> pe_setup_raise e = false -> pe_extract_raise e = true -> nopost_env e ->
   let '(n', o, _) := pipeflow m e n in
   o <> Returned /\ n_conv n' = false /\ n_tables n' = AllNaN.
 Proof.
-  intros m e n EO ES EX. pose proof (pipeflow_outcome_lemma m e n) as P.
+  intros m e n EO ES EX NP. pose proof (pipeflow_outcome_lemma m e n) as P.
   destruct (pipeflow m e n) as [[n' o] sts] eqn:E. unfold pipeflow_post in P.
   destruct P as [P1 [P2 [P3 [P4 P5]]]].
   assert (NR : o <> Returned).
@@ -125,9 +172,22 @@ Proof.
 Qed.
 Print Assumptions extraction_failure_leaves_no_results.
 
+(* 5c. refuted at full strength (kept visible): an exception raised inside a stage AFTER its loop converged
+   - by rerun_* or extract_results_active_pit - is outside pipeflow's try/except: the tables are all NaN
+   but net.converged stays True.  (No component overrides rerun_hydraulics and extract_results_active_pit
+   is plain indexing: no API-level input reaches this path today.) *)
+Theorem post_loop_exception_keeps_converged_flag_refuted :
+  exists m e n, pe_options_raise e = false /\ pe_setup_raise e = false /\
+    let '(n', o, _) := pipeflow m e n in
+    o = OtherException /\ n_conv n' = true /\ n_tables n' = AllNaN.
+Proof. exact post_loop_exception_keeps_flag. Qed.
+Print Assumptions post_loop_exception_keeps_converged_flag_refuted.
+
 (* 6. _internal_data does not survive a hydraulic / bidirectional stage, however the stage ends (return,
-   PipeflowNotConverged, any exception escaping from the Newton loop), unless reuse_internal_data is set *)
+   PipeflowNotConverged, any exception escaping from the Newton loop), unless reuse_internal_data is set
+   (or rerun_* itself raises, which happens before the pop) *)
 Theorem internal_data_dropped : forall k hu more r n, k <> KHeat ->
+  (forall x, In x (r :: more) -> ri_post x <> PostRerun) ->
   n_idata (fst (fst (stage k false hu r more n))) = false.
 Proof. exact stage_idata. Qed.
 Print Assumptions internal_data_dropped.
@@ -142,6 +202,58 @@ Proof.
   intros w Hin. apply wiring_ok_spec. rewrite forallb_forall in H. now apply H.
 Qed.
 Print Assumptions stage_wiring_checks_every_unknown.
+
+(* 7b. where a rejected step is restored.  finalize_iteration writes the old vector into net["_active_pit"];
+   that is the pit the vector was read from iff the last reduce_pit before finalize_iteration has the mode of
+   the reduce_pit the pair was read under.  Holds for hydraulics and heat_transfer ... *)
+Theorem restore_targets_own_pit_partial : forall w q, In w stages -> sw_name w <> "bidirectional"%string ->
+  In q (sw_pairs w) -> ps_reduce_mode q = sw_final_reduce_mode w.
+Proof.
+  assert (H : forallb (fun w => String.eqb (sw_name w) "bidirectional" || forallb (restore_in_own_pit w) (sw_pairs w)) stages = true)
+    by (vm_compute; reflexivity).
+  intros w q Hw Hn Hq. rewrite forallb_forall in H. specialize (H w Hw).
+  apply orb_true_iff in H. destruct H as [H | H].
+  - apply String.eqb_eq in H. contradiction.
+  - rewrite forallb_forall in H. specialize (H q Hq). unfold restore_in_own_pit in H. now apply String.eqb_eq.
+Qed.
+Print Assumptions restore_targets_own_pit_partial.
+
+(* ... in bidirectional mode what IS guaranteed: the thermal pairs are restored into the pit they came from,
+   the restore of every pair goes to pit / column / rows of wiring_spec inside the heat-transfer selection ... *)
+Theorem bidirectional_restore_guarantee : forall w q, In w stages -> sw_name w = "bidirectional"%string ->
+  In q (sw_pairs w) ->
+  sw_final_reduce_mode w = "heat_transfer"%string /\
+  (ps_reduce_mode q = "heat_transfer"%string \/ ps_reduce_mode q = "hydraulics"%string) /\
+  (ps_new_col q = "TOUTINIT"%string \/ ps_new_col q = "TINIT"%string -> ps_reduce_mode q = sw_final_reduce_mode w).
+Proof.
+  assert (H : forallb (fun w => negb (String.eqb (sw_name w) "bidirectional") ||
+      (String.eqb (sw_final_reduce_mode w) "heat_transfer" &&
+       forallb (fun q => (String.eqb (ps_reduce_mode q) "heat_transfer" || String.eqb (ps_reduce_mode q) "hydraulics") &&
+                         (negb (String.eqb (ps_new_col q) "TOUTINIT" || String.eqb (ps_new_col q) "TINIT") ||
+                          restore_in_own_pit w q)) (sw_pairs w))) stages = true) by (vm_compute; reflexivity).
+  intros w q Hw Hn Hq. rewrite forallb_forall in H. specialize (H w Hw). rewrite Hn in H. simpl in H.
+  apply andb_true_iff in H. destruct H as [H1 H2]. apply String.eqb_eq in H1.
+  rewrite forallb_forall in H2. specialize (H2 q Hq). apply andb_true_iff in H2. destruct H2 as [H2 H3].
+  split; auto. split.
+  - apply orb_true_iff in H2. destruct H2 as [H2 | H2]; apply String.eqb_eq in H2; auto.
+  - intros C. apply orb_true_iff in H3. destruct H3 as [H3 | H3].
+    + exfalso. apply negb_true_iff in H3. apply orb_false_iff in H3. destruct H3 as [A B].
+      destruct C as [C | C]; rewrite C in *; simpl in *; discriminate.
+    + unfold restore_in_own_pit in H3. now apply String.eqb_eq.
+Qed.
+Print Assumptions bidirectional_restore_guarantee.
+
+(* ... and what is NOT (known finding C05-bidirectional-automatic-restore-shape): the hydraulic pairs of the
+   bidirectional stage are restored into the heat-transfer selection *)
+Theorem bidirectional_restore_targets_other_pit_refuted :
+  exists w q, In w stages /\ In q (sw_pairs w) /\ ps_reduce_mode q <> sw_final_reduce_mode w.
+Proof.
+  assert (H : existsb (fun w => existsb (fun q => negb (restore_in_own_pit w q)) (sw_pairs w)) stages = true)
+    by (vm_compute; reflexivity).
+  apply existsb_exists in H. destruct H as [w [Hw H]]. apply existsb_exists in H. destruct H as [q [Hq H]].
+  exists w, q. split; auto. split; auto. intros E. unfold restore_in_own_pit in H. rewrite E, String.eqb_refl in H. discriminate.
+Qed.
+Print Assumptions bidirectional_restore_targets_other_pit_refuted.
 
 (* 8. the statement skeletons the hand model follows are the ones the source has today *)
 Theorem control_flow_skeleton_matches_model :
@@ -171,3 +283,36 @@ Example driver_nontrivial :
   s_conv fin = true /\ s_niter fin = 6 /\ s_alpha fin = 1%Q /\
   nth 4 (s_rest fin) [] = [true; true] /\ length stages = 3.
 Proof. vm_compute. repeat split. Qed.
+
+(* non-vacuity of the pipeflow theorems: a sequential call that returns, one whose extraction raises, one
+   whose thermal stage fails after a converged hydraulic stage - on a net that was converged before *)
+Example pipeflow_nontrivial :
+  let cfg := {| c_max_iter := 3; c_meth := Constant; c_nvars := 1; c_tols := [Fin 1]; c_tol_res := Fin 1; c_nrestore := 0 |} in
+  let good := {| ri_cfg := cfg; ri_orc := fun st => {| o_errs := [if Nat.eqb (s_niter st) 0 then Fin 5 else Fin 0]; o_res := Fin 0 |};
+                 ri_rerun := false; ri_escape := NoEscape; ri_post := NoPost |} in
+  let bad := {| ri_cfg := cfg; ri_orc := fun _ => {| o_errs := [NaN]; o_res := Fin 0 |};
+                ri_rerun := false; ri_escape := NoEscape; ri_post := NoPost |} in
+  let env x hr := {| pe_options_raise := false; pe_setup_raise := false; pe_unsupplied := false; pe_conn_raise := false;
+                     pe_heat_unsupplied := false; pe_extract_raise := x; pe_reuse := false; pe_alpha0 := 1;
+                     pe_hyd := (good, []); pe_heat := (hr, []); pe_bid := good |} in
+  let n0 := {| n_conv := true; n_tables := Written; n_hyd_flag := true; n_idata := false; n_alpha := 1 |} in
+  (let '(n', o, sts) := pipeflow MSequential (env false good) n0 in
+     o = Returned /\ n_conv n' = true /\ n_tables n' = Written /\ length sts = 2 /\ map s_niter sts = [2; 2]) /\
+  (let '(n', o, _) := pipeflow MSequential (env true good) n0 in o = OtherException /\ n_conv n' = false /\ n_tables n' = AllNaN) /\
+  (let '(n', o, _) := pipeflow MSequential (env false bad) n0 in o = NotConverged /\ n_conv n' = false /\ n_tables n' = AllNaN) /\
+  nopost_env (env true good).
+Proof. vm_compute. repeat split; auto. Qed.
+
+(* non-vacuity of the vector-level theorems: a two-variable run over ragged vectors converging in its third
+   iteration; the active vector written back under a mask with an unsupplied row *)
+Example vectors_nontrivial :
+  let cfg := {| c_max_iter := 5; c_meth := Automatic; c_nvars := 2; c_tols := [Fin (1 # 100); Fin (1 # 10)];
+                c_tol_res := Fin (1 # 1000); c_nrestore := 2 |} in
+  let it (a b : Q) := {| v_pairs := [([Fin a; Fin 2; Fin 3], [Fin 1; Fin 2; Fin 3]); ([Fin b], [Fin 0])]; v_res := Fin 0 |} in
+  let script := [it 4%Q 9%Q; it 2%Q 1%Q; it (101 # 100)%Q (1 # 20)%Q] in
+  let fin := newton_v cfg (fun st => nth (s_niter st) script {| v_pairs := []; v_res := NaN |}) false 1 in
+  s_conv fin = true /\ s_niter fin = 3 /\
+  PP.C04.Model.writeback [true; false; true; true] [Fin (101 # 100); Fin 2; Fin 3] =
+    [Some (Fin (101 # 100)); None; Some (Fin 2); Some (Fin 3)] /\
+  err_of (upd 1 [Fin 1; Fin 2] [Fin 0; NaN], [Fin 1; Fin 2]) = NaN.
+Proof. vm_compute. repeat split; auto. Qed.
